@@ -19,6 +19,7 @@ Tie to /repo, every run:
 """
 from __future__ import annotations
 
+import heapq
 import importlib.util
 import json
 import time
@@ -27,7 +28,10 @@ from .. import core
 from .. import c13_sched as S
 
 PROP_FILES = [core.THEORIES / "C13" / "Props.v"]
-PREAMBLE = ("From SV Require Import C13.Stream.\nFrom Coq Require Import List.\nImport ListNotations.\n")
+PREAMBLE = ("From SV Require Import C13.Stream C13.Poll.\nFrom Coq Require Import List.\nImport ListNotations.\n")
+F130 = "labels_instances_key_bare_frame"      # selector of finding F130
+F130_WITNESS = core.VERIF / "corpus" / "C13" / "F130_bare_frame.json"
+STATE = {"f130_fixed": False}                  # which LabelsReader the code has (detected by replaying the witness)
 GEN = core.THEORIES / "Gen"
 
 
@@ -41,6 +45,15 @@ def _translator():
 # ----------------------------------------------------------------------------
 # the specification, in Python (independent of the Coq model)
 
+def resolved_range(case):
+    """(start, end) requested, from the constructor arguments when the case gives them
+    (None = default: 0 resp. the length of the video; 0 is 0)."""
+    if case.get("args") is not None:
+        a_start, a_end, n_total = case["args"]
+        return (0 if a_start is None else a_start), (n_total if a_end is None else a_end)
+    return case["start"], case["end"]
+
+
 def spec_frames(start, end, fault):
     stop = end
     if fault is not None and fault >= start:
@@ -48,19 +61,53 @@ def spec_frames(start, end, fault):
     return list(range(start, stop)) if stop > start else []
 
 
+def spec_of(case):
+    start, end = resolved_range(case)
+    return spec_frames(start, end, case["fault"])
+
+
 def label_of(reader, i):
     return i if reader == "video" else S.frame_label(i)
 
 
+def bare_selected(case):
+    """Selector of F130: LabelsReader with instances_key and a labelled frame without a non-empty
+    instance among the frames that must be delivered."""
+    return bool(case.get("instances_key")) and any(b in spec_of(case) for b in case.get("bare", ()))
+
+
+def model_fault(case):
+    """The fault position of the model configuration (Poll.labels_cfg): a bare frame acts as a fault of
+    the unrepaired LabelsReader when instances are requested.  Statistics only."""
+    f = case["fault"]
+    if case.get("instances_key") and case.get("bare") and not STATE["f130_fixed"]:
+        b = min(case["bare"])
+        return b if f is None else min(f, b)
+    return f
+
+
 def oracle(case, res):
     """The property evaluated on one execution of the real code.  Returns None or a reason."""
-    reader, start, end, cap, batch, fault = (case[k] for k in ("reader", "start", "end", "cap", "batch", "fault"))
-    want = spec_frames(start, end, fault)
+    reader, cap, batch = (case[k] for k in ("reader", "cap", "batch"))
+    nv = case.get("n_videos", 1)
+    want = spec_of(case)
+    start, end = resolved_range(case)
+    if reader == "video":
+        if res["total_len"] != end - start:
+            return f"total_len() = {res['total_len']}, requested range [{start}, {end})"
+        if res["max_hw"] != [4, 6]:
+            return f"max_height_and_width = {res['max_hw']}, the video is 4 x 6"
+    else:
+        if res["total_len"] != end:
+            return f"total_len() = {res['total_len']}, the labels hold {end} frames"
+        hw = [max(S.vid_shape(v)[1] for v in range(nv)), max(S.vid_shape(v)[2] for v in range(nv))]
+        if res["max_hw"] != hw:
+            return f"max_height_and_width = {res['max_hw']}, the largest video sides are {hw}"
     if res["status"] == "hang":
         return f"hang: a thread did not reach its next queue/read point within {S.WATCHDOG_S}s (stuck: {res['stuck']})"
     if res["status"] == "livelock":
         return (f"livelock: more than {S.MAX_STEPS} scheduling steps without the run ending (the proved bound is "
-                f"4(end-start)+8); threads still live: {res['stuck']}")
+                f"8(end-start)+17 under the scheduler's fairness rule); threads still live: {res['stuck']}")
     if "C" in res["errors"]:
         return f"exception escaped the consumer loop: {res['errors']['C']}"
     # (an exception escaping the READER thread is not by itself against the property, as long as
@@ -69,6 +116,9 @@ def oracle(case, res):
         return f"deadlock: live thread(s) blocked for ever: {res['stuck']} (inference hangs)"
     gets = [e[1] for e in res["trace"] if e[0] == "get"]
     puts = [e[1] for e in res["trace"] if e[0] == "put"]
+
+    def vid(i):
+        return 0 if reader == "video" else S.vid_of(i, nv)
     for name, seq in (("put on", puts), ("taken from", gets)):
         if any("other" in g for g in seq):
             return f"unrecognised item {name} the queue"
@@ -82,7 +132,7 @@ def oracle(case, res):
             return (f"frames {name} the queue {[g['frame_idx'] for g in frames]} != specified "
                     f"{[label_of(reader, i) for i in want]} (loss / duplication / reordering)")
         for g, i in zip(frames, want):
-            if g["size"] != list(S.frame_size(i)) or g["video_idx"] != 0:
+            if g["size"] != list(S.frame_size(i)) or g["video_idx"] != vid(i):
                 return f"frame {i} carries size {g['size']} / video {g['video_idx']}, not its own"
     ys = res["yielded"]
     flat = [x for y in ys for x in y["frame_idx"]]
@@ -91,9 +141,15 @@ def oracle(case, res):
     sizes = [s for y in ys for s in y["size"]]
     if sizes != [list(S.frame_size(i)) for i in want]:
         return "yielded orig_size does not belong to the yielded frame"
+    vids = [v for y in ys for v in y["video_idx"]]
+    if vids != [vid(i) for i in want]:
+        return f"yielded video_idx {vids} != {[vid(i) for i in want]}"
     if case.get("instances_key"):
         inst = [x for y in ys for x in y.get("inst0", [])]
-        if len(inst) != len(want) or any(abs(a - i) > 1e-4 for a, i in zip(inst, want)):
+        bare = set(case.get("bare", ()))
+        exp = [None if i in bare else float(i) for i in want]       # a bare frame carries NaN rows only
+        if len(inst) != len(exp) or any((a is None) != (e is None) or (e is not None and abs(a - e) > 1e-4)
+                                        for a, e in zip(inst, exp)):
             return f"ground-truth instances {inst} do not belong to the yielded frames {want}"
     for k, y in enumerate(ys):
         n = len(y["frame_idx"])
@@ -124,37 +180,91 @@ def _pos(reader, label):
     return (label - 3) // 7
 
 
-def events_term(reader, trace):
+def has_xevents(trace):
+    return any(e[0] in ("get_timeout", "alive") for e in trace)
+
+
+def events_term(reader, trace, x=False):
+    """Events of one execution as a Coq list.  A read that is not followed by the put of that frame
+    (the loop body raised after the read) is the model's EvReadFail: 'iteration i raised before its
+    put'.  x: terms of Poll.xevent (time-outs and is_alive() looks included)."""
+    p_events = [k for k, e in enumerate(trace) if e[0] in ("read_ok", "read_fail", "put")]
+    failed_after_read = set()
+    for a, k in enumerate(p_events):
+        e = trace[k]
+        if e[0] == "read_ok":
+            nxt = trace[p_events[a + 1]] if a + 1 < len(p_events) else None
+            if nxt is None or nxt[0] != "put" or nxt[1].get("sentinel"):
+                failed_after_read.add(k)
     out = []
-    for e in trace:
+    for k_, e in enumerate(trace):
         k = e[0]
         if k == "start":
-            out.append("EvStart")
+            t = "EvStart"
         elif k == "read_ok":
-            out.append(f"EvReadOk {e[1]}")
+            t = f"EvReadFail {e[1]}" if k_ in failed_after_read else f"EvReadOk {e[1]}"
         elif k == "read_fail":
-            out.append(f"EvReadFail {e[1]}")
+            t = f"EvReadFail {e[1]}"
         elif k in ("put", "get"):
             d = e[1]
             if d.get("sentinel"):
-                out.append("EvPutSent" if k == "put" else "EvGetSent")
+                t = "EvPutSent" if k == "put" else "EvGetSent"
             elif "frame_idx" in d:
-                out.append(f"{'EvPut' if k == 'put' else 'EvGet'} {_pos(reader, d['frame_idx'])}")
+                t = f"{'EvPut' if k == 'put' else 'EvGet'} {_pos(reader, d['frame_idx'])}"
             else:
                 raise Untranslatable("unrecognised queue item")
         elif k == "yield":
-            out.append("EvYield [" + "; ".join(str(_pos(reader, x)) for x in e[1]) + "]")
+            t = "EvYield [" + "; ".join(str(_pos(reader, x_)) for x_ in e[1]) + "]"
         elif k == "join":
-            out.append("EvJoin")
+            t = "EvJoin"
+        elif k == "get_timeout" and x:
+            out.append("XTimeout")
+            continue
+        elif k == "alive" and x:
+            out.append(f"XAlive {'true' if e[1] else 'false'}")
+            continue
         else:
             raise Untranslatable(k)
+        out.append(f"XEv ({t})" if x else t)
     return "[" + "; ".join(out) + "]"
 
 
+def _copt(v):
+    return "None" if v is None else f"(Some {v})"
+
+
+def request_term(case):
+    """The request as a term of Poll.vrequest / Poll.lrequest (constructor arguments as given)."""
+    if case["reader"] == "video":
+        if case.get("args") is not None:
+            a_start, a_end, n_total = case["args"]
+        elif case.get("defaults"):
+            a_start, a_end, n_total = None, None, case["end"]
+        else:
+            a_start, a_end, n_total = case["start"], case["end"], max(case["start"], case["end"]) + 2
+        return (f"ReqVideo (mkVReq {n_total} {_copt(a_start)} {_copt(a_end)} {case['cap']} {case['batch']} "
+                f"{_copt(case['fault'])})")
+    bare = sorted(case.get("bare", ()))
+    return (f"ReqLabels (mkLReq {case['end']} {case['cap']} {case['batch']} {_copt(case['fault'])} "
+            f"{'true' if case.get('instances_key') else 'false'} {_copt(bare[0] if bare else None)} "
+            f"{'true' if STATE['f130_fixed'] else 'false'})")
+
+
+def cfg_term(case):
+    """The model configuration of a case: through the request model of Poll.v."""
+    r = request_term(case)
+    return ("video_cfg (" + r[len("ReqVideo "):] + ")") if r.startswith("ReqVideo") else \
+           ("labels_cfg (" + r[len("ReqLabels "):] + ")")
+
+
 def group_term(case, traces, want_states):
-    f = "None" if case["fault"] is None else f"(Some {case['fault']})"
-    return (f"({'true' if want_states else 'false'}, mkCfg {case['start']} {case['end']} {case['cap']} "
-            f"{case['batch']} {f}, [" + ";\n ".join(events_term(case["reader"], t) for t in traces) + "])")
+    return (f"({'true' if want_states else 'false'}, {cfg_term(case)}, [" +
+            ";\n ".join(events_term(case["reader"], t) for t in traces) + "])")
+
+
+def xgroup_term(case, traces, mode):
+    return (f"({mode}, {cfg_term(case)}, [" +
+            ";\n ".join(events_term(case["reader"], t, x=True) for t in traces) + "])")
 
 
 # ----------------------------------------------------------------------------
@@ -236,12 +346,21 @@ def _decode_trans(k):
 # ----------------------------------------------------------------------------
 # case generation
 
+def word_cost(w, default="P"):
+    """Context switches of the schedule `w` followed by the default letter for ever."""
+    full = default + w + default
+    return sum(1 for a, b in zip(full, full[1:]) if a != b)
+
+
 def explore(case, limit=None):
-    """All schedules of one configuration, by depth-first search over the choice points
-    discovered while executing (stateless model checking).  Yields (choices, result)."""
-    stack, n = [""], 0
-    while stack:
-        w = stack.pop()
+    """All schedules of one configuration (stateless model checking: the tree of choice words is
+    discovered while executing).  Words are run in order of increasing number of context switches
+    (then length): races that need one badly placed pre-emption followed by the other thread running
+    to completion are met first, whatever the size of the tree.  The set of words is the same for any
+    order.  Yields (choices, result)."""
+    heap, n, seq = [(0, 0, 0, "")], 0, 0
+    while heap:
+        _, _, _, w = heapq.heappop(heap)
         r = run_case(case, w)
         n += 1
         yield w, r
@@ -249,7 +368,9 @@ def explore(case, limit=None):
             return                      # a failing execution: siblings add nothing, and hangs are slow
         t = r["taken"]
         for j in range(len(w), len(t)):
-            stack.append(t[:j] + ("C" if t[j] == "P" else "P"))
+            seq += 1
+            w2 = t[:j] + ("C" if t[j] == "P" else "P")
+            heapq.heappush(heap, (word_cost(w2), len(w2), seq, w2))
         if limit and n >= limit:
             return
 
@@ -258,7 +379,9 @@ def run_case(case, choices, default="P"):
     return S.run_schedule(case["reader"], case["start"], case["end"], case["cap"], case["batch"], case["fault"],
                           choices, default=default, fault_in_image=case.get("fault_in_image", False),
                           defaults=case.get("defaults", False), instances_key=case.get("instances_key", False),
-                          yield_point=case.get("yield_point", False))
+                          yield_point=case.get("yield_point", False), ctor=case.get("ctor", "direct"),
+                          args=case.get("args"), n_videos=case.get("n_videos", 1), bare=case.get("bare", ()),
+                          poll=case.get("poll", "none"), infer_raises_at=case.get("infer_raises_at"))
 
 
 def exhaustive_configs(tier):
@@ -309,7 +432,67 @@ def exhaustive_configs(tier):
                                          fault_in_image=fim))
         for fault in (None, 3, 5):
             cfgs.append(dict(reader="video", start=0, end=6, cap=3, batch=4, fault=fault))
+    cfgs += construction_configs(tier)
     return cfgs
+
+
+def _vcase(a_start, a_end, n_total, cap, batch, fault, ctor):
+    c = dict(reader="video", cap=cap, batch=batch, fault=fault, ctor=ctor, args=[a_start, a_end, n_total])
+    c["start"], c["end"] = resolved_range(c)
+    return c
+
+
+def construction_configs(tier):
+    """How the readers are built and what they carry: constructor / from_filename with omitted, None and 0
+    arguments; multi-video labels; ground-truth instances, frames without instances (F130)."""
+    out = []
+    for ctor in ("from_filename", "direct"):
+        for a_start, a_end in ((None, None), (None, 0), (0, None), (0, 0), (None, 2), (1, None), (1, 3), (2, 1)):
+            for fault in (None, 1):
+                out.append(_vcase(a_start, a_end, 3, 1, 2, fault, ctor))
+    out.append(_vcase(None, 0, 4, 2, 1, None, "from_filename"))
+    out.append(_vcase(0, None, 4, 0, 3, 2, "from_filename"))
+    for nv in (2, 3):
+        for batch in (1, 3):
+            for fault in (None, 2):
+                out.append(dict(reader="labels", start=0, end=4, cap=2, batch=batch, fault=fault, n_videos=nv,
+                                ctor="from_filename" if batch == 1 else "direct"))
+    for n in (0, 3):
+        out.append(dict(reader="labels", start=0, end=n, cap=1, batch=2, fault=None, ctor="from_filename"))
+    for fault in (None, 0, 1, 2):
+        out.append(dict(reader="labels", start=0, end=3, cap=1, batch=2, fault=fault, instances_key=True,
+                        n_videos=2, ctor="from_filename"))
+    # labelled frames without a non-empty instance
+    for bare, fault, ik in (([0], None, True), ([1], None, True), ([2], None, True), ([1, 2], None, True),
+                            ([1], 2, True), ([2], 1, True), ([1], 1, True), ([1], None, False), ([0, 2], 1, False)):
+        out.append(dict(reader="labels", start=0, end=3, cap=1, batch=2, fault=fault, instances_key=ik, bare=bare))
+    out.append(dict(reader="labels", start=0, end=4, cap=2, batch=3, fault=None, instances_key=True, bare=[3],
+                    n_videos=2))
+    return out
+
+
+def polling_configs(tier):
+    """The real reader + the real consumer loop whose get() polls (timed get, retry until the marker)."""
+    out = []
+    nmax = 2 if tier == "quick" else 3
+    for n in range(0, nmax + 1):
+        for cap in (1, 2):
+            for batch in (1, 2):
+                for fault in [None] + list(range(n)):
+                    out.append(dict(reader="video", start=0, end=n, cap=cap, batch=batch, fault=fault, poll="retry"))
+    out.append(dict(reader="labels", start=0, end=2, cap=1, batch=2, fault=1, fault_in_image=True, poll="retry"))
+    out.append(dict(reader="video", start=0, end=3, cap=0, batch=2, fault=None, poll="retry"))
+    return out
+
+
+GIVEUP_CONTROL = [dict(reader="video", start=0, end=0, cap=1, batch=1, fault=None, poll="giveup"),
+                  dict(reader="video", start=0, end=1, cap=2, batch=1, fault=None, poll="giveup"),
+                  dict(reader="video", start=0, end=2, cap=3, batch=2, fault=None, poll="giveup"),
+                  dict(reader="video", start=0, end=3, cap=0, batch=2, fault=None, poll="giveup")]
+
+CONSUMER_CRASH = [dict(reader="video", start=0, end=3, cap=1, batch=1, fault=None, infer_raises_at=1),
+                  dict(reader="video", start=0, end=1, cap=2, batch=1, fault=None, infer_raises_at=1),
+                  dict(reader="labels", start=0, end=4, cap=2, batch=2, fault=None, infer_raises_at=2)]
 
 
 def sampled_cases(rng, tier):
@@ -340,6 +523,14 @@ def sampled_cases(rng, tier):
         case = dict(reader=reader, start=start, end=start + n, cap=cap, batch=batch, fault=fault, fault_in_image=fim)
         if reader == "labels" and rng.random() < 0.4:
             case["instances_key"] = True
+        if reader == "labels" and rng.random() < 0.4:
+            case["n_videos"] = rng.choice([2, 3])
+        if reader == "labels" and n and rng.random() < 0.25:
+            case["bare"] = sorted(rng.sample(range(n), rng.randint(1, min(2, n))))
+        if rng.random() < 0.3:
+            case["ctor"] = "from_filename"
+        if rng.random() < 0.15:
+            case["poll"] = "retry"
         if rng.random() < 0.5:
             case["yield_point"] = True
         out.append((case, w, rng.choice("PC")))
@@ -381,24 +572,39 @@ def check(run: core.Run) -> int:
     rng = run.rng
     t0 = time.time()
 
+    # --- finding F130: replay the corpus witness; which LabelsReader does the code have?
+    wit = json.load(open(F130_WITNESS))
+    wr = run_case(wit["case"], wit["choices"], wit.get("default", "P"))
+    wbad = oracle(wit["case"], wr)
+    STATE["f130_fixed"] = wbad is None
+    run.coverage["F130"] = {"witness": str(F130_WITNESS.relative_to(core.VERIF)), "defect_present": wbad is not None,
+                            "oracle": wbad, "model_variant": "lr_fixed = " + str(STATE["f130_fixed"]).lower()}
+    if wbad is not None:
+        run.violation("failing-input", {"case": wit["case"], "choices": wit["choices"], "default": "P",
+                                        "oracle": wbad, "specified_frames": spec_of(wit["case"])},
+                      selector=F130 if bare_selected(wit["case"]) else None)
+
     records = []                # (case, choices, default, result, exhaustive?)
     n_by_cfg = {}
     hangs = 0
     cfgs = exhaustive_configs(run.tier)
+    n_plain = len(cfgs)
+    cfgs += polling_configs(run.tier)
     # budgets: the unchanged code needs <= ~60 schedules per configuration and ~20 s in all; code that
     # polls (timed put/get) multiplies the choice points, so cap the work and say so in the evidence
     budget_s = 900 if run.tier == "thorough" else 150
     cap_per_cfg = 5000 if run.tier == "thorough" else 600
     capped, failing_cfgs, out_of_time = 0, 0, False
-    for case in cfgs:
+    cap_poll = 1500 if run.tier == "thorough" else 120
+    for ci, case in enumerate(cfgs):
         k = 0
-        for w, r in explore(case, limit=cap_per_cfg):
+        for w, r in explore(case, limit=cap_per_cfg if ci < n_plain else cap_poll):
             records.append((case, w, "P", r, True))
             k += 1
             hangs += r["status"] == "hang"
             if r["status"] != "ok" or "C" in r["errors"]:
                 failing_cfgs += 1
-        capped += k >= cap_per_cfg
+        capped += ci < n_plain and k >= cap_per_cfg
         n_by_cfg[json.dumps(case, sort_keys=True)] = k
         if hangs >= 2:
             run.notes.append("exploration cut short after two hangs (each costs a watchdog period)")
@@ -435,46 +641,59 @@ def check(run: core.Run) -> int:
             failures.append(idx)
             run.violation("failing-input", {
                 "case": case, "choices": w, "default": default, "oracle": bad,
-                "specified_frames": spec_frames(case["start"], case["end"], case["fault"]),
+                "specified_frames": spec_of(case),
                 "observed": {"status": r["status"], "errors": r["errors"], "stuck": r["stuck"],
-                             "yielded": [y["frame_idx"] for y in r["yielded"]], "trace": r["trace"][:80]}})
-    # --- model: every trace through the Coq trace checker (grouped by configuration)
+                             "yielded": [y["frame_idx"] for y in r["yielded"]], "trace": r["trace"][:80]}},
+                selector=F130 if (bare_selected(case) and not STATE["f130_fixed"]) else None)
+    # --- model: every trace through the Coq trace checker (grouped by configuration).  Traces that hold
+    #     time-outs of a timed get / is_alive() looks go through Poll.xaccepts in mode Polling (a consumer
+    #     that waits for the marker: c13_xaccepts_spec), all others through Stream.accepts.
     groups, order, untranslatable = {}, [], 0
     for idx, (case, w, default, r, exh) in enumerate(records):
+        xk = has_xevents(r["trace"])
         try:
-            events_term(case["reader"], r["trace"])
+            events_term(case["reader"], r["trace"], x=xk)
         except Untranslatable:
             untranslatable += 1
             if idx not in failures:
                 run.proof_broken.append(f"trace of {case} / {w!r} holds an event the model has no name for")
             continue
-        gk = (json.dumps(case, sort_keys=True), exh) if exh else ("sampled", idx)
+        gk = (json.dumps(case, sort_keys=True), exh, xk) if exh else ("sampled", idx, xk)
         if gk not in groups:
             groups[gk] = []
             order.append(gk)
         groups[gk].append(idx)
-    terms = []
+    terms, xterms = [], []
     for gk in order:
         idxs = groups[gk]
         case = records[idxs[0]][0]
-        want = bool(records[idxs[0]][4]) and case["end"] - case["start"] <= 6
-        terms.append(group_term(case, [records[i][3]["trace"] for i in idxs], want))
-    # shards of roughly equal weight
+        if gk[2]:
+            xterms.append(xgroup_term(case, [records[i][3]["trace"] for i in idxs], "Polling"))
+        else:
+            want = bool(records[idxs[0]][4]) and case["end"] - case["start"] <= 6
+            terms.append(group_term(case, [records[i][3]["trace"] for i in idxs], want))
     gvs = core.coq_eval_sharded(PREAMBLE, terms, "check_group", "rgroup", shard=25) if terms else []
-    rejected = 0
+    xgvs = core.coq_eval_sharded(PREAMBLE, xterms, "check_xgroup", "rxgroup", shard=25) if xterms else []
+    gvs, xgvs = list(gvs), list(xgvs)
+    rejected = n_xtraces = n_timeouts = 0
     visited = {}
-    for gk, gv in zip(order, gvs):
+    for gk in order:
+        gv = xgvs.pop(0) if gk[2] else gvs.pop(0)
         idxs = groups[gk]
         case = records[idxs[0]][0]
-        key = (case["start"], case["end"], case["cap"], case["batch"], case["fault"])
-        if gv["states"]:
+        key = (case["start"], case["end"], case["cap"], case["batch"], model_fault(case))
+        if gv.get("states"):
             st, tr_ = visited.setdefault(key, (set(), set()))
             st.update(_decode(k)[0] for k in gv["states"])
             tr_.update(_decode_trans(k) for k in gv["trans"])
         if len(gv["verdicts"]) != len(idxs):
             raise core.CoqEvalError("verdict count mismatch")
-        for idx, (acc, consumed, vy) in zip(idxs, gv["verdicts"]):
+        for idx, verdict in zip(idxs, gv["verdicts"]):
+            acc, consumed, vy = verdict[:3]
             case, w, default, r, exh = records[idx]
+            if gk[2]:
+                n_xtraces += 1
+                n_timeouts += sum(1 for e in r["trace"] if e[0] == "get_timeout")
             impl_y = [[_pos(case["reader"], x) for x in y["frame_idx"]] for y in r["yielded"]]
             ok = acc and vy == impl_y and vy == gv["spec"]
             n = case["end"] - case["start"]
@@ -488,11 +707,78 @@ def check(run: core.Run) -> int:
                     # the real code did what the property asks, but not the way the model says: tie broken
                     ev = r["trace"][consumed] if consumed < len(r["trace"]) else "end of trace, state not final"
                     run.proof_broken.append(
-                        f"correspondence: trace of the real threads not accepted by Stream.accepts for {case} "
+                        f"correspondence: trace of the real threads not accepted by "
+                        f"{'Poll.xaccepts Polling' if gk[2] else 'Stream.accepts'} for {case} "
                         f"choices={w!r} (event #{consumed}: {ev})")
     run.obligation("correspondence: every trace of the real reader thread + consumer loop under a prescribed "
-                   "schedule is accepted by Stream.accepts (Coq, vm_compute) and yields the model's batches",
+                   "schedule is accepted by Stream.accepts / Poll.xaccepts (Coq, vm_compute) and yields the model's batches",
                    rejected == 0 and untranslatable == 0, f"{rejected} rejected, {untranslatable} untranslatable")
+    run.coverage["polling"] = {"traces_with_timeouts_checked_in_mode_Polling": n_xtraces, "timeouts": n_timeouts,
+                               "max_steps_seen": max((r["steps"] for _, _, _, r, _ in records), default=0)}
+
+    # --- the request model (Poll.video_cfg / labels_cfg): what must be delivered, total_len, selector of F130
+    reqs = {}
+    for case, w, default, r, exh in records:
+        reqs.setdefault(request_term(case), (case, r))
+    rvs = core.coq_eval_sharded(PREAMBLE, list(reqs), "check_request", "rreq", shard=400)
+    req_bad = []
+    for (term, (case, r)), rv in zip(reqs.items(), rvs):
+        tl = rv["total_len"][0] - rv["total_len"][1]
+        sel = bare_selected(case)
+        if rv["spec"] != spec_of(case) or tl != r["total_len"] or rv["selected"] != sel or \
+                (rv["delivered"] != rv["spec"]) != (sel and not STATE["f130_fixed"]):
+            req_bad.append(f"{term}: model {rv}, python spec {spec_of(case)}, total_len() {r['total_len']}, selected {sel}")
+    run.obligation("correspondence: the request model (Poll.video_cfg / labels_cfg: argument defaulting, total_len, "
+                   "bare-frame selector) agrees with the readers' constructors and the Python specification on "
+                   f"{len(reqs)} distinct requests", not req_bad, "; ".join(req_bad[:3]))
+    if req_bad:
+        run.proof_broken.append("request model: " + req_bad[0])
+
+    # --- positive control of the exploration order + tie of the GiveUp model: the give-up consumer
+    #     (harness-side, around the real reader and the real consumer loop) must lose frames within a few
+    #     executions, and every one of its traces must be a trace of Poll.xstep in mode GiveUp
+    ctl_rows, gterms, gobs = [], [], []
+    for case in GIVEUP_CONTROL:
+        k, lost, traces = 0, None, []
+        for w, r in explore(case, limit=40):
+            k += 1
+            traces.append(r)
+            if oracle(case, r):
+                lost = k
+                break
+        ctl_rows.append({"case": {a: case[a] for a in ("end", "cap", "batch")}, "race_found_at_execution": lost})
+        gterms.append(xgroup_term(case, [t["trace"] for t in traces], "GiveUp"))
+        gobs.append(traces)
+    ggv = core.coq_eval_sharded(PREAMBLE, gterms, "check_xgroup", "rxgroup", shard=10)
+    g_bad = []
+    for case, traces, gv in zip(GIVEUP_CONTROL, gobs, ggv):
+        for t, (acc, consumed, vy, qleft) in zip(traces, gv["verdicts"]):
+            impl_y = [y["frame_idx"] for y in t["yielded"]]
+            if not (acc and vy == impl_y and qleft == t["queue_left"]):
+                g_bad.append(f"{case}: accepted {acc}, consumed {consumed}, model yielded {vy} / queue {qleft}, "
+                             f"observed {impl_y} / {t['queue_left']}")
+    run.coverage["giveup_control"] = ctl_rows
+    run.obligation("positive control: the consumer that gives up when the reader is dead (c13_giveup_loses_frames, "
+                   "seeded change C13_m4) loses frames within 10 executions of every control configuration, and "
+                   "all its traces are accepted by Poll.xaccepts in mode GiveUp with the observed yield and queue rest",
+                   all(r_["race_found_at_execution"] and r_["race_found_at_execution"] <= 10 for r_ in ctl_rows)
+                   and not g_bad, json.dumps(ctl_rows) + " " + "; ".join(g_bad[:2]))
+    if g_bad or not all(r_["race_found_at_execution"] for r_ in ctl_rows):
+        run.proof_broken.append("give-up control: " + (g_bad[0] if g_bad else "race not found"))
+
+    # --- observation (outside the property): the inference callable raises in the consumer
+    obs = []
+    for case in CONSUMER_CRASH:
+        r = run_case(case, "")
+        obs.append({"case": {a: case[a] for a in ("reader", "end", "cap", "batch", "infer_raises_at")},
+                    "exception_reaches_caller": "C" in r["errors"], "status": r["status"],
+                    "reader_left_waiting_at": r["stuck"].get("P"), "queue_left": r["queue_left"]})
+    run.coverage["observation_consumer_exception"] = {
+        "runs": obs,
+        "meaning": "the exception propagates out of _predict_generator; pipeline.join() is never reached; when the "
+                   "items still to come do not fit into the queue the (non-daemon) reader thread stays blocked in "
+                   "put() for ever (status 'deadlock', c13_blocked_reader_needs_get), otherwise it ends and leaves "
+                   "its items in the queue.  Outside the property (which speaks about READ failures); not reported."}
 
     # --- coverage statistics
     reach_s = reach_t = vis_s = vis_t = 0
